@@ -79,6 +79,19 @@ CLAIMS = {
         note="Trusted: TLC, scenario driver (scenario.py, props/c06.py); relative references are resolved by the harness for the "
              "specification (URL arithmetic itself is C18). Random corpus (200 base texts x 11 schemas quick).",
         technique="TLA+ loader spec, self-composition (include vs inline) checked by TLC; both scenarios replayed on the code with real files"),
+    "C08": dict(
+        text="Accepted random texts of the schema family get exactly one injected fault of each listed kind (malformed line, "
+             "bad directive, undefined / malformed substitution, unknown / repeated / unconvertible key, unconvertible value, "
+             "unknown / abstract / misplaced header, missing required item or surplus section revealed at close, both spellings "
+             "of an empty section) at a random position and are then cut into 0..2 included files, so the culprit (resource, "
+             "line) is known by construction; TLC checks on the loader specification that the rejection names exactly that "
+             "line and resource (ErrorPositionIsCulprit) and the real exception must carry the same lineno, url, and for "
+             "conversion errors the offending text and a ValueError.",
+        design="3 (C08)",
+        note="Trusted: TLC, fault injection and culprit bookkeeping (props/c08.py; cross-checked against the specification by the "
+             "TLC invariant before the code is consulted). Random corpus; top-level required items and schema-side faults are "
+             "not among the listed kinds.",
+        technique="TLA+ loader spec with error positions, invariant ErrorPositionIsCulprit checked by TLC on fault-injected scenarios; replayed on the code"),
 }
 
 NOT_YET = "check not built yet (construction order in DESIGN.md section 8)"
